@@ -371,5 +371,13 @@ func ruleC13Nosync(c *ctx.Ctx, r *core.Reporter) {
 }
 
 func sigNoRecv(s *types.Signature) string {
-	return types.TypeString(types.NewSignatureType(nil, nil, nil, s.Params(), s.Results(), s.Variadic()), func(*types.Package) string { return "" })
+	// parameter and result names are not part of the signature's identity
+	anon := func(t *types.Tuple) *types.Tuple {
+		vs := make([]*types.Var, t.Len())
+		for i := 0; i < t.Len(); i++ {
+			vs[i] = types.NewVar(0, nil, "", t.At(i).Type())
+		}
+		return types.NewTuple(vs...)
+	}
+	return types.TypeString(types.NewSignatureType(nil, nil, nil, anon(s.Params()), anon(s.Results()), s.Variadic()), func(*types.Package) string { return "" })
 }
